@@ -39,6 +39,19 @@ pub(crate) fn bpb_validate_ok(b: &BiosParameterBlock) -> bool {
     b.validate::<()>().is_ok()
 }
 
+/// the 512-byte image of a boot sector with this BPB (built with the real serializer; used as a concrete
+/// valid volume prefix by mount harnesses)
+pub(crate) fn boot_image(bpb: BiosParameterBlock) -> [u8; 512] {
+    let mut boot = BootSector::default();
+    boot.bpb = bpb;
+    boot.bootjmp = [0xEB, 0x58, 0x90];
+    boot.boot_sig = [0x55, 0xAA];
+    let mut out = MemDev::<512>::zeroed();
+    let r = boot.serialize(&mut out);
+    assert!(r.is_ok());
+    out.data
+}
+
 /// Geometry derived in unbounded (u64) arithmetic straight from the FAT specification.
 pub(crate) struct Geo {
     pub fat32: bool,
